@@ -10,7 +10,7 @@ STREAMS = [jac_drag.stream_viscous_jac, jac_drag.stream_wave_jac, jac_stress.str
            jac_aero.stream_system_jac, jac_beam.stream_element_jac, jac_beam.stream_implicit_jac, jac_beam.stream_pg_jac,
            jac_geom.stream_transformations_jac, jac_geom.stream_multisection_jac,
            jac_wingbox.stream_section_properties_wingbox, jac_wingbox.stream_wingbox_geometry]
-ORACLES = [c01.oracle_fd, c01.oracle_wingbox_untwisted]
+ORACLES = [c01.oracle_multi_surface, c01.oracle_fd, c01.oracle_wingbox_untwisted]
 UNPROVED = ["FailureKS: its theorem is C15_ks_reported_derivative (Props/C15.v); AtmosComp's spline derivative: C17 (akima_der stream)",
             "WingboxGeometry.fem_twists at an exactly untwisted section: refuted (C01_WingboxGeometry_twist_measure_refuted_at_zero_twist), known finding F13",
             "joint (Frechet) differentiability is not formalised: the theorems give the derivative along every differentiable curve of the inputs, which contains all coordinate partials and all chain-rule compositions"]
